@@ -125,3 +125,16 @@ func TestReplay(t *testing.T) {
 	}
 	fmt.Printf("REPLAYED %d\n", n)
 }
+
+// stateView / fmtStateDiff: readable difference of two states.
+type stateView = refState
+
+func fmtStateDiff(g, w *stateView) string {
+	in := refInfoAll
+	ds := engStateDiff(g, w, &in)
+	s := ""
+	for _, d := range ds {
+		s += d.Kind + ": " + d.Msg + " "
+	}
+	return s
+}
